@@ -111,16 +111,18 @@ class _PyodaFormatInfo(metaclass=_PyodaFormatInfoMeta):
             if self.__long_month_names is not None:
                 return  # type: ignore[unreachable]
             # Turn month names into 1-based read-only lists
-            self.__long_month_names = self.__convert_month_array(self.date_time_format.month_names)
+            long_month_names = self.__convert_month_array(self.date_time_format.month_names)
             self.__short_month_names = self.__convert_month_array(self.date_time_format.abbreviated_month_names)
             self.__long_month_genitive_names = self.__convert_genitive_month_array(
-                self.__long_month_names, self.date_time_format.month_genitive_names, self.__LONG_INVARIANT_MONTH_NAMES
+                long_month_names, self.date_time_format.month_genitive_names, self.__LONG_INVARIANT_MONTH_NAMES
             )
             self.__short_month_genitive_names = self.__convert_genitive_month_array(
                 self.__short_month_names,
                 self.date_time_format.abbreviated_month_genitive_names,
                 self.__SHORT_INVARIANT_MONTH_NAMES,
             )
+            # Assigned last: the unlocked fast path above treats this field as "everything is initialized".
+            self.__long_month_names = long_month_names
 
     @staticmethod
     def __convert_month_array(month_names: Sequence[str]) -> list[str]:
@@ -135,8 +137,9 @@ class _PyodaFormatInfo(metaclass=_PyodaFormatInfoMeta):
         with self.__FIELD_LOCK:
             if self.__long_day_names is not None:
                 return  # type: ignore[unreachable]
-            self.__long_day_names = self.__convert_day_array(self.date_time_format.day_names)
             self.__short_day_names = self.__convert_day_array(self.date_time_format.abbreviated_day_names)
+            # Assigned last: the unlocked fast path above treats this field as "everything is initialized".
+            self.__long_day_names = self.__convert_day_array(self.date_time_format.day_names)
 
     @staticmethod
     def __convert_day_array(day_names: list[str]) -> list[str]:
